@@ -696,6 +696,22 @@ Definition top_reveal (P : prog) (d : decls) (fr : frame) (e : expr) : list ann 
   | _ => []
   end.
 
+Definition is_dead_of (l : nat) (a : ann) : bool :=
+  match a with ADead l' => Nat.eqb l l' | _ => false end.
+
+(* messages.iteration_dependent_errors: a statement in a loop is reported unreachable only if it was
+   unreachable in every pass; revealed types of all passes are united (by the harness) *)
+Definition combine_passes (passes : list (list ann)) : list ann :=
+  flat_map (filter (fun a => match a with AReveal _ _ => true | ADead _ => false end)) passes
+  ++ match passes with
+     | [] => []
+     | p0 :: rest =>
+         filter (fun a => match a with
+                          | ADead l => forallb (fun q => existsb (is_dead_of l) q) rest
+                          | _ => false
+                          end) p0
+     end.
+
 Fixpoint annot (P : prog) (ret : ty) (st : cst) (s : stmt) {struct s} : list ann :=
   match cur st with
   | None => match first_label s with Some l => [ADead l] | None => [] end
@@ -720,17 +736,18 @@ Fixpoint annot (P : prog) (ret : ty) (st : cst) (s : stmt) {struct s} : list ann
         end
     | SWhile c b =>
         let chk := fun st0 => check_stmt P false ret st0 b in
-        (fix go (n : nat) (d0 : decls) (V : frame) : list ann :=
+        combine_passes
+        ((fix go (n : nat) (d0 : decls) (V : frame) : list (list ann) :=
            match infer P false d0 V c with
            | Ok xc =>
-               annot P ret {| decl := d0; cur := push_map (Some V) (fst (snd xc)) false |} b ++
+               annot P ret {| decl := d0; cur := push_map (Some V) (fst (snd xc)) false |} b ::
                match loop_pass P false chk c d0 V with
                | Ok (d', V', _, ch) =>
                    match n with S n' => if ch then go n' d' V' else [] | O => [] end
                | _ => []
                end
            | _ => []
-           end) 3 d fr
+           end) 3 d fr)
     | SPass => []
     end
   end.
